@@ -29,6 +29,10 @@ type Config struct {
 	Validate      int // number of ok paths whose models are exported for native validation
 	Seed          int64
 	Params        map[string]int
+	// StopAfterViolation: once a violating model has been found, exploration of
+	// the entry continues for at most this long (the verdict is already decided;
+	// the remaining time only collects further labels). Zero: never stop early.
+	StopAfterViolation time.Duration
 }
 
 func DefaultConfig() Config {
@@ -527,6 +531,7 @@ type EntryReport struct {
 	MaxQuery     time.Duration
 	SolverErrors int
 	Truncated    bool
+	StoppedEarly bool
 	Wall         time.Duration
 	Steps        int64
 	Terms        int
@@ -542,6 +547,7 @@ type Explorer struct {
 	active int
 	rep   *EntryReport
 	stop  bool
+	firstViolation time.Time
 }
 
 func NewWorker(p *Program, cfg *Config, id int) (*Worker, error) {
@@ -624,6 +630,7 @@ func (e *Explorer) Explore(entry *ssa.Function) *EntryReport {
 	e.work = [][]Decision{nil}
 	e.active = 0
 	e.stop = false
+	e.firstViolation = time.Time{}
 	e.cond = sync.NewCond(&e.mu)
 	nw := e.Cfg.Workers
 	if nw < 1 {
@@ -711,6 +718,15 @@ func (e *Explorer) Explore(entry *ssa.Function) *EntryReport {
 
 func (e *Explorer) merge(pr *PathResult, newWork [][]Decision) {
 	rep := e.rep
+	if len(pr.Violations) > 0 && e.firstViolation.IsZero() {
+		e.firstViolation = time.Now()
+	}
+	if e.Cfg.StopAfterViolation > 0 && !e.firstViolation.IsZero() && time.Since(e.firstViolation) > e.Cfg.StopAfterViolation && !e.stop {
+		rep.Truncated = true
+		rep.StoppedEarly = true
+		e.stop = true
+		e.work = nil
+	}
 	rep.Paths++
 	rep.ByStatus[pr.Status.String()]++
 	rep.Transitions += pr.Decisions
